@@ -9,7 +9,8 @@
 //
 //	c23selftest --repo /repo --root /verif [--tier quick|thorough] [--seed n]
 //
-// quick tier: the control and two of the mutations (rotating with the seed); thorough: all.
+// quick tier: three of the mutations (rotating with the seed), each checked against the theorems it is
+// expected to break only (the unmutated tree is proved by the main build); thorough: control + all, whole Props.
 //
 // Last stdout line: the JSON verdict bin/check expects.
 package main
@@ -48,16 +49,24 @@ const deleteIndexGate = "\tif err := api.validate(apiDeleteIndex); err != nil {\
 
 var mutations = []mutation{
 	{"ungate-Query", replaceOnce(queryGate, ""), []string{"C23_refused"}},
-	{"unchecked-validate-Import", replaceOnce(importGate, "\t_ = api.validate(apiImport)\n"), []string{"C23_refused", "C23_before_data"}},
+	{"unchecked-validate-Import", replaceOnce(importGate, "\t_ = api.validate(apiImport)\n"), []string{"C23_refused", "C23_before_data", "C23_before_data_sites"}},
 	{"Import-gated-under-transfer-class", replaceOnce("api.validate(apiImport)", "api.validate(apiFragmentData)"), []string{"C23_admitted", "C23_resizing_only"}},
 	{"apiQuery-added-to-methodsResizing", replaceOnce("var methodsResizing = map[apiMethod]struct{}{\n", "var methodsResizing = map[apiMethod]struct{}{\n\tapiQuery: {},\n"), []string{"C23_refused", "C23_resizing_only"}},
 	{"new-unclassified-entry-point", func(s string) (string, bool) {
 		return s + "\n// Frobnicate is new.\nfunc (api *API) Frobnicate() error { return api.holder.DeleteIndex(\"i\") }\n", true
 	}, []string{"C23_classified"}},
-	{"data-touched-before-gate-DeleteIndex", replaceOnce(deleteIndexGate, "\t_ = api.holder.DeleteIndex(indexName)\n"+deleteIndexGate), []string{"C23_before_data"}},
+	{"data-touched-before-gate-DeleteIndex", replaceOnce(deleteIndexGate, "\t_ = api.holder.DeleteIndex(indexName)\n"+deleteIndexGate), []string{"C23_before_data", "C23_before_data_sites"}},
 	{"validate-admits-everything-while-STARTING", replaceOnce("if _, ok := validAPIMethods[state][f]; ok {", "if _, ok := validAPIMethods[state][f]; ok || state == ClusterStateStarting {"), []string{"C23_validate_shape"}},
 	{"STARTING-row-gets-methodsNormal", replaceOnce("ClusterStateStarting: methodsCommon,", "ClusterStateStarting: appendMap(methodsCommon, methodsNormal),"), []string{"C23_refused"}},
-	{"gate-only-for-local-queries", replaceOnce(queryGate, "\tif !req.Remote {\n\t\tif err := api.validate(apiQuery); err != nil {\n\t\t\treturn QueryResponse{}, err\n\t\t}\n\t}\n"), []string{"C23_refused", "C23_before_data"}},
+	{"gate-only-for-local-queries", replaceOnce(queryGate, "\tif !req.Remote {\n\t\tif err := api.validate(apiQuery); err != nil {\n\t\t\treturn QueryResponse{}, err\n\t\t}\n\t}\n"), []string{"C23_refused", "C23_before_data", "C23_before_data_sites"}},
+	{"Import-gate-moved-behind-key-translation", func(src string) (string, bool) {
+		if strings.Count(src, importGate) != 1 || strings.Count(src, "\t// Validate shard ownership.\n\tif err := api.validateShardOwnership(req.Index, req.Shard); err != nil {") < 1 {
+			return src, false
+		}
+		src = strings.Replace(src, importGate, "", 1)
+		return strings.Replace(src, "\t// Validate shard ownership.\n\tif err := api.validateShardOwnership(req.Index, req.Shard); err != nil {",
+			importGate+"\t// Validate shard ownership.\n\tif err := api.validateShardOwnership(req.Index, req.Shard); err != nil {", 1), true
+	}, []string{"C23_before_data", "C23_before_data_sites"}},
 	{"apiFragmentData-removed-from-methodsResizing", replaceOnce("\tapiFragmentData: {},\n", ""), []string{"C23_resizing_only", "C23_resizing_served"}},
 }
 
@@ -73,14 +82,72 @@ var errRe = regexp.MustCompile(`(?m)^(\S+\.lean):(\d+):\d+: error`)
 var thmRe = regexp.MustCompile(`^\s*theorem\s+(\S+)`)
 
 // leanCheck concatenates Gen (given) + Model + Spec + Props and elaborates the result.
-func leanCheck(root, dir, gen string) (failed []string, exitOK bool, out string) {
+// keepTheorems drops every `theorem` / `example` block (with its doc comment) of a Props source whose
+// name is not in keep; nil keeps everything.
+func keepTheorems(src string, keep []string) string {
+	if keep == nil {
+		return src
+	}
+	want := map[string]bool{}
+	for _, k := range keep {
+		want[k] = true
+	}
+	var out, doc, cur []string
+	curKeep := true
+	flush := func() {
+		if curKeep {
+			out = append(out, cur...)
+		}
+		cur, curKeep = nil, true
+	}
+	inDoc := false
+	for _, line := range strings.Split(src, "\n") {
+		switch {
+		case inDoc:
+			doc = append(doc, line)
+			if strings.Contains(line, "-/") {
+				inDoc = false
+			}
+		case strings.HasPrefix(line, "/--"):
+			flush()
+			doc = []string{line}
+			inDoc = !strings.Contains(line, "-/")
+		case strings.HasPrefix(line, "theorem ") || strings.HasPrefix(line, "example"):
+			flush()
+			name := ""
+			if m := thmRe.FindStringSubmatch(line); m != nil {
+				name = m[1]
+			}
+			curKeep = want[name]
+			cur = append(doc, line)
+			doc = nil
+		case strings.HasPrefix(line, "def ") || strings.HasPrefix(line, "end ") || strings.HasPrefix(line, "/-!") || strings.HasPrefix(line, "namespace "):
+			flush()
+			cur = append(doc, line)
+			doc = nil
+		default:
+			if doc != nil && !inDoc && cur == nil {
+				cur, doc = doc, nil
+			}
+			cur = append(cur, line)
+		}
+	}
+	flush()
+	return strings.Join(out, "\n")
+}
+
+func leanCheck(root, dir, gen string, keep []string) (failed []string, exitOK bool, out string) {
 	var b strings.Builder
 	for _, f := range []string{gen, filepath.Join(root, "lean/PV/C23/Model.lean"), filepath.Join(root, "lean/PV/C23/Spec.lean"), filepath.Join(root, "lean/PV/C23/Props.lean")} {
 		src, err := os.ReadFile(f)
 		if err != nil {
 			return nil, false, err.Error()
 		}
-		b.WriteString(importRe.ReplaceAllString(string(src), ""))
+		text := importRe.ReplaceAllString(string(src), "")
+		if strings.HasSuffix(f, "Props.lean") {
+			text = keepTheorems(text, keep)
+		}
+		b.WriteString(text)
 		b.WriteString("\n")
 	}
 	all := filepath.Join(dir, "All.lean")
@@ -118,9 +185,10 @@ func main() {
 	tier := flag.String("tier", "quick", "quick: control + 2 mutations chosen by --seed; thorough: all")
 	seed := flag.Int("seed", 1, "rotates the quick-tier subset")
 	flag.Parse()
-	if *tier != "thorough" {
+	thorough := *tier == "thorough"
+	if !thorough {
 		var sub []mutation
-		for k := 0; k < 2; k++ {
+		for k := 0; k < 3; k++ {
 			sub = append(sub, mutations[((*seed%len(mutations))+len(mutations)+k*3)%len(mutations)])
 		}
 		mutations = sub
@@ -149,7 +217,7 @@ func main() {
 		return
 	}
 
-	run := func(name, src string) ([]string, bool, string) {
+	run := func(name, src string, keep []string) ([]string, bool, string) {
 		d := filepath.Join(scratch, name)
 		_ = os.MkdirAll(d, 0o755)
 		_ = os.WriteFile(filepath.Join(d, "api.go"), []byte(src), 0o644)
@@ -158,7 +226,7 @@ func main() {
 		if o, err := exec.Command(gate, "--api", filepath.Join(d, "api.go"), "--handler", filepath.Join(d, "handler.go"), "--out", gen).CombinedOutput(); err != nil {
 			return []string{"extractor-refused"}, false, string(o)
 		}
-		return leanCheck(*root, d, gen)
+		return leanCheck(*root, d, gen, keep)
 	}
 
 	results := make([]result, len(mutations)+1)
@@ -169,7 +237,12 @@ func main() {
 		defer wg.Done()
 		sem <- struct{}{}
 		defer func() { <-sem }()
-		failed, ok, out := run("control", string(apiSrc))
+		if !thorough {
+			// quick tier: the unmutated tree is what step 1 of bin/check (lake build of Props) has just proved
+			results[0] = result{name: "control", ok: true}
+			return
+		}
+		failed, ok, out := run("control", string(apiSrc), nil)
 		r := result{name: "control", failed: failed, ok: ok && len(failed) == 0}
 		if !r.ok {
 			r.problem = "the unmutated copy does not prove: " + strings.Join(failed, ",") + " " + tail(out)
@@ -188,7 +261,11 @@ func main() {
 				results[i+1] = result{name: m.name, problem: "mutation does not apply to this api.go (anchor text missing)"}
 				return
 			}
-			failed, exitOK, _ := run(m.name, src)
+			keep := m.expect // quick tier: elaborate only the theorems expected to break
+			if thorough {
+				keep = nil
+			}
+			failed, exitOK, _ := run(m.name, src, keep)
 			r := result{name: m.name, failed: failed}
 			hit := false
 			for _, f := range failed {
@@ -212,6 +289,9 @@ func main() {
 		st := "caught"
 		if r.name == "control" {
 			st = "proves"
+			if !thorough {
+				st = "(proved by the main build)"
+			}
 		}
 		if !r.ok {
 			st = "NOT OK: " + r.problem
